@@ -627,12 +627,18 @@ func Exec(sc *Scenario) *Run {
 		// so a correct client needs one (a few) connection(s) to complete what is pending. If
 		// LivelockConns accepted connections come and go without the sentinel being acknowledged,
 		// the client is live-locked (it keeps reconnecting but never gets the work done).
+		livelockConns := LivelockConns
+		if sc.RespMs > 0 || sc.PingMs > 0 {
+			// short response / ping timeouts can expire spuriously on a loaded machine and end a healthy
+			// connection; demand many more fruitless connections before calling it a live-lock
+			livelockConns = 4 * LivelockConns
+		}
 		tr.WaitFor(Watchdog, func() bool {
-			return AckConsumedLocked(tr, "P:"+Sentinel) || healthyConnsAfterStabilise(tr.Events) >= LivelockConns
+			return AckConsumedLocked(tr, "P:"+Sentinel) || healthyConnsAfterStabilise(tr.Events) >= livelockConns
 		})
 		tr.Mu.Lock()
 		ok := AckConsumedLocked(tr, "P:"+Sentinel)
-		if !ok && healthyConnsAfterStabilise(tr.Events) >= LivelockConns {
+		if !ok && healthyConnsAfterStabilise(tr.Events) >= livelockConns {
 			r.Livelock = true
 		}
 		tr.Mu.Unlock()
